@@ -205,7 +205,7 @@ func cliConcurrentScenarios() []cliScenario {
 		{Setup: []cliEv{ev("start", 0)}, Threads: [][]cliEv{nil, {{K: "close"}}, {tickAfter}}, Epilogue: "close"},
 		// S8 Close || reader processing a response
 		{Setup: []cliEv{ev("start", 0)}, Threads: [][]cliEv{nil, {{K: "close"}}, {ev("resp", 0)}}, Epilogue: "close"},
-		// S9 Start with a failing first write || tick (no retransmission: the timeout is final) 
+		// S9 Start with a failing first write || tick (no retransmission: the timeout is final)
 		{Setup: []cliEv{{K: "failwrite"}}, Threads: [][]cliEv{nil, {ev("start", 0)}, {tickFar}}, Opts: cliOpts{NoRetransmit: true}, Epilogue: "drain+close"},
 		// S11 re-transmission of A || a new Start with the same id (the id is free while the re-transmission is between
 		// taking A out of the table and putting it back)
